@@ -246,11 +246,3 @@ def asf(case, ctx):
     for prm, k in (((0.0, 0.0), 0), ((0.0, 1.0), sv - 1), ((1.0, 0.0), sv * (su - 1)), ((1.0, 1.0), su * sv - 1)):
         ctx.near([float(x) for x in S.point(prm)], pts[k], 1e-8 * sc, 'approx-surface/corner-not-interpolated',
                  'approximate_surface: corner %r does not interpolate its data point' % (prm,), what='approx-surface-corner')
-    # the fit must stay near the data (loose sanity bound: within the data's bounding extent)
-    ext = max(max(p[d] for p in pts) - min(p[d] for p in pts) for d in range(3))
-    for _ in range(6):
-        q = (rng.random(), rng.random())
-        x = [float(c) for c in S.point(q)]
-        ctx.check(all(min(p[d] for p in pts) - ext <= x[d] <= max(p[d] for p in pts) + ext for d in range(3)),
-                  'approx-surface/far-from-data', 'approximate_surface: point %r at %r is farther from the data than the data\'s own extent'
-                  % (x, q), what='approx-surface-sanity')
